@@ -1281,26 +1281,31 @@ func valueOnPath(v ssa.Value, path []ssa.Instruction) ssa.Value {
 }
 
 func valueOnPath0(v ssa.Value, path []ssa.Instruction) ssa.Value {
+	limit := len(path)
 	for depth := 0; depth < 8; depth++ {
 		phi, ok := v.(*ssa.Phi)
 		if !ok {
 			return v
 		}
-		// find the first instruction of phi's block on the path and the block before it
+		// find the first instruction of phi's block on the path and the block before it. What flows in over an edge was
+		// computed before the block was entered: the next phi is looked up before that point (a block passed twice)
 		var prev *ssa.BasicBlock
 		found := false
-		for i, in := range path {
+		fi := -1
+		for i, in := range path[:limit] {
 			// a block is entered from a predecessor at its first instruction; coming back into the middle of it
 			// after a walked-through call is not an entry
 			if in == phi.Block().Instrs[0] && i > 0 && path[i-1].Block().Parent() == phi.Block().Parent() {
 				prev = path[i-1].Block()
 				found = true
+				fi = i
 				// keep the last entry into the block before the end of the path
 			}
 		}
 		if !found || prev == nil {
 			return v
 		}
+		limit = fi
 		resolved := false
 		for i, p := range phi.Block().Preds {
 			if p == prev {
@@ -1532,7 +1537,39 @@ func walkPathsP(start Loc, terminal func(ssa.Instruction) bool, edgeOK func(b *s
 		}
 		return false
 	}
+	revisited := map[key]bool{}
 	var rec func(b *ssa.BasicBlock, from int, fr *frame) error
+	// recExit: b is passed again (its instructions are appended to the path; no call in it is walked through a second
+	// time) and left through the successors that are not on the path
+	recExit := func(b *ssa.BasicBlock, fr *frame) error {
+		mark := len(pc.path)
+		defer func() { pc.path, pc.frames = pc.path[:mark], pc.frames[:mark] }()
+		for _, in := range b.Instrs {
+			if _, isCall := in.(*ssa.Call); isCall {
+				return nil // keep it simple: loop heads that compute their condition with a call are not re-passed
+			}
+			pc.path = append(pc.path, in)
+			pc.frames = append(pc.frames, fr)
+		}
+		for si, s := range b.Succs {
+			if onPath[key{fr, s}] {
+				continue
+			}
+			if edgeOK != nil {
+				saved := curPath
+				curPath = pc
+				ok := edgeOK(b, si, pc.path)
+				curPath = saved
+				if !ok {
+					continue
+				}
+			}
+			if err := rec(s, 0, fr); err != nil {
+				return err
+			}
+		}
+		return nil
+	}
 	rec = func(b *ssa.BasicBlock, from int, fr *frame) error {
 		mark := len(pc.path)
 		defer func() { pc.path, pc.frames = pc.path[:mark], pc.frames[:mark] }()
@@ -1608,9 +1645,15 @@ func walkPathsP(start Loc, terminal func(ssa.Instruction) bool, edgeOK func(b *s
 					if pc.children[fr] == nil {
 						pc.children[fr] = map[*ssa.Call]*frame{}
 					}
+					// (the call may already stand for the activation the walk started in — a loop that comes back to it)
+					prevChild, hadChild := pc.children[fr][x]
 					pc.children[fr][x] = nf
 					err := rec(callee.Blocks[0], 0, nf)
-					delete(pc.children[fr], x)
+					if hadChild {
+						pc.children[fr][x] = prevChild
+					} else {
+						delete(pc.children[fr], x)
+					}
 					return err
 				}
 			}
@@ -1632,6 +1675,17 @@ func walkPathsP(start Loc, terminal func(ssa.Instruction) bool, edgeOK func(b *s
 			if onPath[key{fr, s}] {
 				if err := emit(endCycle); err != nil {
 					return err
+				}
+				// a loop that ends through a flag its body sets (`for done := false; !done; {…}`): the exit is taken from
+				// the loop's head on the way back, so (on request) the head is passed a second time and left through
+				// the branches not yet on the path
+				if walkLoopExits && !revisited[key{fr, s}] {
+					revisited[key{fr, s}] = true
+					err := recExit(s, fr)
+					delete(revisited, key{fr, s})
+					if err != nil {
+						return err
+					}
 				}
 				continue
 			}
@@ -1660,6 +1714,29 @@ func deferFrame(ds []*ssa.Defer, parent *frame, retBlock *ssa.BasicBlock, retIdx
 	return nil
 }
 
+// frameOfValue: the value defined by instruction in is the same runtime value for the branches at path indices i and j:
+// both see the activation in which it was computed last before i (a helper walked through twice computes it twice).
+func frameOfValue(in ssa.Instruction, i, j int) bool {
+	if curPath == nil {
+		return true
+	}
+	last := -1
+	for k := 0; k <= j && k < len(curPath.path); k++ {
+		if curPath.path[k] == in {
+			if k <= i {
+				last = k
+			} else {
+				return false // computed again between the two branches
+			}
+		}
+	}
+	_ = last
+	return true
+}
+
+// walkLoopExits: see walkPathsP (set by a rule around its walk).
+var walkLoopExits bool
+
 // phiFeasible prunes edges whose condition is decided once phis are resolved
 // along the path: `x != nil` with x a phi of nil / MakeInterface, and
 // comparisons of two constants.
@@ -1676,6 +1753,34 @@ func phiFeasible(b *ssa.BasicBlock, succ int, path []ssa.Instruction) bool {
 		}
 		if bv, isC := boolConst(r); isC {
 			return bv == truth
+		}
+		// the same condition (the same value in the same activation) tested earlier on this path with the other outcome:
+		// `case a && b: … case a:` tests a twice
+		if !walkLoopExits && curPath != nil && len(curPath.frames) >= len(path) {
+			rn, neg := stripNot(r)
+			want := truth != neg
+			for i := 0; i+1 < len(path)-1; i++ {
+				iff, isIf := path[i].(*ssa.If)
+				if !isIf || path[i+1].Block().Parent() != iff.Block().Parent() {
+					continue
+				}
+				for si, sb := range iff.Block().Succs {
+					if sb != path[i+1].Block() {
+						continue
+					}
+					if pc2, pt, ok2 := edgeAssertion(iff.Block(), si); ok2 {
+						pr, pneg := stripNot(resolveOn(pc2, i, path))
+						if _, isConst := pr.(*ssa.Const); !isConst && pr == rn {
+							if in, isIn := pr.(ssa.Instruction); !isIn || frameOfValue(in, i, len(path)-1) {
+								if (pt != pneg) != want {
+									return false
+								}
+							}
+						}
+					}
+					break
+				}
+			}
 		}
 	}
 	// the ok of a lookup in an effectively constant table with a key this path fixes to a constant
@@ -1885,7 +1990,11 @@ func (w *World) dynCallees(scope *ssa.Function, c *ssa.Call) []*ssa.Function {
 // result is a phi of a call result).
 func resolveOn(v ssa.Value, idx int, path []ssa.Instruction) ssa.Value {
 	for i := 0; i < 6; i++ {
-		n := valueOnPath(rvI(v, idx), path)
+		pp := path
+		if idx >= 0 && idx+1 < len(path) {
+			pp = path[:idx+1] // a block passed twice (walkLoopExits): the entry that precedes the use decides
+		}
+		n := valueOnPath(rvI(v, idx), pp)
 		if n == v {
 			// a field read back right after it was assigned on this path (`s.err = helper(); if s.err != nil`)
 			if m, at := fieldLoadOnPath(v, idx, path); m != nil {
